@@ -294,6 +294,12 @@ def make_objects(rng):
         return te.ExperimentResult({nm: metric_result(homog) for nm in names})
 
     objs = []
+    # a narrow first row (as SampleRatio before Mean): different key sets, homogeneous types per key
+    narrow = te.ExperimentResult({"sample_ratio": {"control": float(rng.randint(100, 999)), "treatment": float(rng.randint(100, 999)),
+                                                    "pvalue": rng.random()},
+                                  **{nm: metric_result(True) for nm in rng.sample(NAMES, 2)}})
+    objs.append(("ExperimentResult", narrow, False))
+    objs.append(("ExperimentResults", te.ExperimentResults({(0, 1): narrow, (0, 2): exp_result(True)}), False))
     for homog in (True, False):
         objs.append(("ExperimentResult", exp_result(homog), homog))
         objs.append(("ExperimentResults", te.ExperimentResults({(0, 1): exp_result(homog), ("a<", "b&"): exp_result(homog)}), homog))
@@ -398,24 +404,47 @@ def views(chk: Check, n):
                          dict(input=inp, got=ps.rows[:3], expected=want[:3]))
         except ValueError as ex:
             chk.fail("to_html is not a well-formed table", dict(input=inp, error=repr(ex), html=htm[:300]))
-        if homog:
+        if types_homogeneous(dicts):
+            chk.branch("dataframes:" + ("same-keys" if len({tuple(d) for d in dicts}) <= 1 else "different-key-sets"))
             try:
-                import pandas as pd
                 arrow = obj.to_arrow().to_pylist()
                 pand = obj.to_pandas().to_dict("records")
                 pol = obj.to_polars().to_dicts()
+                allkeys = []
+                for d in dicts:
+                    for k in d:
+                        if k not in allkeys:
+                            allkeys.append(k)
                 for name, rows in (("to_arrow", arrow), ("to_pandas", pand), ("to_polars", pol)):
+                    # a key absent from a row of to_dicts() may come back as null / NaN, never be dropped for the others
                     ok = len(rows) == len(dicts) and all(
-                        set(a) == set(b) and all(same_cell(a[k], b[k]) for k in b) for a, b in zip(rows, dicts))
+                        set(a) == set(allkeys) and all(same_cell(a[k], b.get(k)) for k in allkeys)
+                        for a, b in zip(rows, dicts))
                     if not ok:
-                        chk.fail(f"{name} does not expose the rows of to_dicts in order", dict(input=inp, got=repr(rows)[:300]))
+                        chk.fail(f"{name} does not expose the rows of to_dicts in order (all fields of every row)",
+                                 dict(input=inp, got=repr(rows)[:300], fields=allkeys))
             except Exception as ex:  # noqa: BLE001
-                chk.fail("a dataframe conversion raised on homogeneous rows", dict(input=inp, error=repr(ex)))
+                chk.fail("a dataframe conversion raised on rows with homogeneous value types per key",
+                         dict(input=inp, error=repr(ex)))
         if j < 2:
             chk.sample(dict(kind="views", cls=cls, keys=ks, string=string[:300]))
 
 
+def types_homogeneous(dicts):
+    kinds = {}
+    for d in dicts:
+        for k, v in d.items():
+            if v is None:
+                continue
+            kind = "num" if isinstance(v, (int, float)) and not isinstance(v, bool) else type(v).__name__
+            if kinds.setdefault(k, kind) != kind:
+                return False
+    return True
+
+
 def same_cell(a, b):
+    if b is None:
+        return a is None or (isinstance(a, float) and math.isnan(a))
     if isinstance(b, float) or isinstance(a, float):
         try:
             a, b = float(a), float(b)
